@@ -78,6 +78,9 @@ def merge_events(events):
             ev = {"kind": "choice", "a": e["a"], "p": e["p"], "k": e["k"]}
             steps.append((ev, [e["k"]], e.get("alts", [e["k"]])))
             i += 1
+        elif e["kind"] == "member":
+            steps.append((dict(e), [], []))
+            i += 1
         elif e["kind"] == "q":
             if i + 1 < len(events) and events[i + 1]["kind"] == "draw":
                 d = events[i + 1]
